@@ -176,7 +176,9 @@ def build(spec, top, unrelated):
             sub = build(cmd['circ'], top, unrelated)
             if cmd.get('observe'):
                 _ = sub.operations         # a user looks at the sub-circuit before nesting it
-            added.append(circuit.add(sub))
+            # the generic add() takes a DeclarativeCircuit or its raw circuit structure: both must nest a COPY re-targeted to this circuit
+            raw = (len(cmd['circ']['cmds']) + len(added)) % 2 == 1
+            added.append(circuit.add(sub.circuit_structure if raw else sub))
             continue
         if op == 'M':
             reg = cmd.get('reg', 'own')
